@@ -18,6 +18,9 @@ from props.common import (
     siblings_isomorphic,
 )
 
+# private helpers the rules name; everything else (Filter::should_filter, FanoutX::from_xs, string builders ..) is
+# spliced into its callers before the rules run
+KEEP = ["prefix_key", "prefix_key_name", "Router::route", "route", "MetricKindMask::value", "value"]
 TITLE = "C13 layers deliver exactly the transformed operations to exactly the right recorders."
 CONFIGS = ["test-profile", "util-layers"]
 L = "metrics_util::layers"
@@ -34,6 +37,16 @@ def self_field(s, field):
     return s[0] == "field" and s[2] == field and is_param(s[1], 0)
 
 
+def flat_phi(s):
+    s = strip_sym(s)
+    if isinstance(s, tuple) and s and s[0] == "phi":
+        out = []
+        for x in s[1]:
+            out += flat_phi(x)
+        return out
+    return [s]
+
+
 def name_of(s, param):
     """s is key.name() / key_name.as_str() of parameter `param`"""
     s = strip_sym(s)
@@ -46,7 +59,7 @@ def run(ctx):
     crate_stats(chk, u)
     chk.rule("C13.a", "FWD+KIND: every Recorder method of Stack/Prefix/Filter/Router/Fanout reaches only the same-named inner method with unit/description/metadata unchanged; kind-bearing identifiers agree with the method's kind; the describe_* (register_*) triplets are isomorphic modulo the kind", floor=30 + 30 + 10)
     chk.rule("C13.b", "SHAPE prefix: new name = prefix, '.', old name pushed in that order; labels = key.labels()", floor=2)
-    chk.rule("C13.c", "MPT filter: the inner call is reached only on the should_filter == false edge; the filtered edge returns the matching noop handle; should_filter returns exactly automaton.is_match(name); the automaton is built from self.patterns with ascii_case_insensitive(self.case_insensitive)", floor=8)
+    chk.rule("C13.c", "MPT filter (helpers spliced in): the inner call is reached only when automaton.is_match(name) — and nothing else — said false; a matching name gets the matching noop handle; the automaton is built from self.patterns with ascii_case_insensitive(self.case_insensitive)", floor=7)
     chk.rule("C13.d", "TBL router: route() = default unless global_mask.matches(kind), else get_ancestor(key) on the kind's trie (longest stored prefix) else default; add_route takes the index before the push, ORs the mask into global_mask, and each mask arm inserts into exactly the matching tries; MetricKindMask bit table", floor=10)
     chk.rule("C13.e", "ORD fanout: every *Fn method iterates the whole vector (plain iteration from the field, no early exit) calling the same-named handle method once per element with the value unchanged; registration collects one handle per recorder", floor=12)
     chk.rule("C13.f", "composition: Stack::push = Stack::new(layer.layer(self.inner))", floor=1)
@@ -107,11 +120,8 @@ def run(ctx):
     # ---------------- C13.c filter
     filt = layer_impls.get("Filter")
     if filt:
-        sf = one_method(chk, "C13.c", u, f"{L}::filter::Filter", "should_filter")
-        if sf:
-            ret = strip_sym(Sym(sf).local(0))
-            ok = sym_is_call(ret, "AhoCorasick::is_match") and self_field(ret[2][0], "automaton") and is_param(ret[2][1], 1) and len(list(sf.body.calls())) == 1
-            chk.ob("C13.c", sf.path, ok, "should_filter(name) = self.automaton.is_match(name)" if ok else f"should_filter returns {sym_str(ret)[:160]} — not exactly is_match(name) (extra fast paths change which names are dropped)", sf.loc())
+        from facts import PredFlow
+
         for name in RECORDER_METHODS:
             f = filt.get(name)
             if not f:
@@ -119,21 +129,25 @@ def run(ctx):
             inner = [c for c in nonforeign_calls(f) if (c.t.get("trait") or "").endswith("recorder::Recorder")]
             if len(inner) != 1:
                 continue
-            g = gates(f.body, inner[0].bb)
 
-            def is_sf(d):
-                return sym_is_call(d, "Filter<R>::should_filter") and is_param(strip_sym(d)[2][0], 0) and name_of(strip_sym(d)[2][1], 1)
+            def cbool(x, _f=f):
+                x = strip_sym(x)
+                if sym_is_call(x, "AhoCorasick::is_match") and self_field(x[2][0], "automaton") and name_of(x[2][1], 1):
+                    return ("P", "N")
+                return None
 
-            gated = any(lab is False and is_sf(d) for d, lab in g)
-            ok = gated
-            detail = "inner call only on should_filter(name) == false"
+            pf = PredFlow(f, lambda subj, v: None, cbool)  # P = "the metric name matches one of the patterns"
+            ms = [c for c in nonforeign_calls(f) if c.is_("AhoCorasick::is_match")]
+            ok = len(ms) == 1 and cbool(("call", ms[0].resolved, tuple(arg_syms(ms[0])), ms[0].callee)) is not None and pf.at(inner[0].bb) == "N"
+            detail = "the inner recorder is called only when automaton.is_match(name) is false"
             if ok and name.startswith("register"):
                 kind = name.split("_")[1].capitalize()
-                # value returned on the filtered edge
                 noops = [c for c in nonforeign_calls(f) if c.is_(f"{kind}::noop")]
-                ok = len(noops) == 1 and any(lab is True and is_sf(d) for d, lab in gates(f.body, noops[0].bb)) and noops[0].t["dest"]["l"] == 0
-                detail += f"; filtered edge returns {kind}::noop()"
-            chk.ob("C13.c", f"{f.path} [gate]", ok, detail if ok else "the inner recorder is reachable when the name matches a pattern, or the filtered edge does not return the matching noop handle", f.loc())
+                # the no-op handle is what is returned when the name matches
+                ret_alts = [strip_sym(x) for x in flat_phi(Sym(f).local(0))]
+                ok = len(noops) == 1 and pf.at(noops[0].bb) == "P" and any(sym_is_call(x, f"{kind}::noop") for x in ret_alts) and len(ret_alts) == 2
+                detail += f"; a matching name gets {kind}::noop()"
+            chk.ob("C13.c", f"{f.path} [gate]", ok, detail if ok else "the inner recorder is reachable when the name matches a pattern (or an extra fast path decides instead of is_match(name)), or the filtered edge does not return the matching noop handle", f.loc())
         fl = [f for f in u.fns if f.name == "layer" and f.j.get("impl_self", "").endswith("filter::FilterLayer")]
         if fl:
             f = fl[0]
@@ -151,24 +165,35 @@ def run(ctx):
         route = one_method(chk, "C13.d", u, f"{L}::router::Router", "route")
         if route:
             b = route.body
+            from facts import PredFlow
+            from props.common import opt_alts
+
             mt = calls_to(route, "MetricKindMask::matches")
             ga = calls_to(route, "Trie<K, V>::get_ancestor", "get_ancestor")
-            lookups = [c for c in nonforeign_calls(route) if "radix_trie" in (c.resolved or "") and c.fn is route]
+            lookups = [c for c in nonforeign_calls(route) if "radix_trie" in (c.resolved or "") and c.fn is route and not c.is_("TrieCommon::value", "value", "TrieCommon::key")]
             ok = len(mt) == 1 and len(ga) == 1 and len(lookups) == 1
             detail = f"trie lookups {[strip_generics(c.resolved).split('::')[-1] for c in lookups]}"
             if ok:
                 am = arg_syms(mt[0])
                 ag = arg_syms(ga[0])
                 ok = self_field(am[0], "global_mask") and is_param(am[1], 1) and is_param(ag[0], 3) and is_param(ag[1], 2)
-                g = gates(b, ga[0].bb)
-                ok = ok and any(lab is True and sym_is_call(d, "MetricKindMask::matches") for d, lab in g)
-                # default on the false edge and as the fallback
-                defaults = [c for c in nonforeign_calls(route) if c.is_("AsRef::as_ref") and self_field(arg_syms(c)[0], "default")]
-                ok = ok and len(defaults) >= 2
-                uo = calls_to(route, "Option<T>::unwrap_or_else", "Option<T>::unwrap_or", "Option<T>::map_or_else")
-                ok = ok and len(uo) == 1
-                gu = [c for c in nonforeign_calls(route) if c.is_("get_unchecked", "<impl [T]>::get", "Index::index")]
-                ok = ok and len(gu) == 1 and "'targets'" in repr(arg_syms(gu[0])[0]) and sym_is_call(sym_through(arg_syms(gu[0])[1], "Option<T>::unwrap"), "TrieCommon::value")
+                pf = PredFlow(route, lambda subj, v: None, lambda x: ("P", "N") if sym_is_call(x, "MetricKindMask::matches") else None)
+                ok = ok and pf.at(ga[0].bb) == "P"
+                detail = "the trie is consulted without the global mask admitting the kind" if not ok else detail
+                # what route() may return: the default recorder, or targets[<value found by get_ancestor>]
+                alts = [x for x, _ in opt_alts(u, Sym(route).local(0))]
+                kinds_ = set()
+                for x in alts:
+                    txt = repr(x)
+                    if "'default'" in txt and "'targets'" not in txt:
+                        kinds_.add("default")
+                    elif "'targets'" in txt and "'default'" not in txt and "get_ancestor" in txt and any(sym_is_call(y, "TrieCommon::value", "value") for y in sym_walk(x) if isinstance(y, tuple)):
+                        kinds_.add("target")
+                    else:
+                        kinds_.add("other:" + sym_str(x)[:60])
+                if ok and kinds_ != {"default", "target"}:
+                    ok = False
+                    detail = f"route() can return {sorted(kinds_)}"
             chk.ob("C13.d", route.path, ok, "default unless global_mask.matches(kind); else targets[get_ancestor(key).value] else default" if ok else f"route() is not mask-gated longest-prefix lookup with default fallback ({detail})", route.loc())
         ar = one_method(chk, "C13.d", u, f"{L}::router::RouterBuilder", "add_route")
         if ar:
@@ -265,9 +290,10 @@ def run(ctx):
     push = one_method(chk, "C13.f", u, f"{L}::Stack", "push")
     if push:
         ret = strip_sym(Sym(push).local(0))
-        ok = sym_is_call(ret, "Stack<R>::new") and sym_is_call(ret[2][0], "Layer::layer") and is_param(strip_sym(ret[2][0])[2][0], 1)
+        wrapped = strip_sym(ret[2][0]) if sym_is_call(ret, "Stack<R>::new") else (strip_sym(ret[3][0]) if ret[0] == "agg" and (ret[5] or "").endswith("layers::Stack") and len(ret[3]) == 1 else None)
+        ok = wrapped is not None and sym_is_call(wrapped, "Layer::layer") and is_param(sym_through(wrapped[2][0]), 1)
         if ok:
-            inner = strip_sym(strip_sym(ret[2][0])[2][1])
+            inner = strip_sym(wrapped[2][1])
             ok = inner[0] == "field" and inner[2] == "inner" and is_param(inner[1], 0)
         chk.ob("C13.f", push.path, ok, "push(layer) = Stack::new(layer.layer(self.inner))" if ok else f"push returns {sym_str(ret)[:160]}", push.loc())
 
